@@ -28,6 +28,7 @@ type ReplayFile struct {
 	Params   map[string]int    `json:"params,omitempty"`
 	Nd       []gsx.NdVal       `json:"nd"`
 	PathCond []string          `json:"path_condition,omitempty"`
+	Repeat   int               `json:"repeat,omitempty"` // schedule-dependent: run the harness this many times natively
 	Note     string            `json:"note,omitempty"`
 	Output   string            `json:"native_output,omitempty"`
 }
@@ -72,7 +73,7 @@ func materialize(dir string) (string, error) {
 		for _, n := range names {
 			fmt.Fprintf(&sb, "\t\t%q: %s,\n", n, n)
 		}
-		sb.WriteString("\t}\n\tf := h[os.Getenv(\"VERIF_HARNESS\")]\n\tif f == nil {\n\t\tt.Fatal(\"VERIF-REPLAY: unknown harness\")\n\t}\n\tdefer func() {\n\t\tif r := recover(); r != nil {\n\t\t\tif _, ok := r.(vfAssumeFailed); ok {\n\t\t\t\tt.Skip(\"VERIF-REPLAY: assumption failed (spurious)\")\n\t\t\t}\n\t\t\tpanic(r)\n\t\t}\n\t}()\n\tf()\n}\n")
+		sb.WriteString("\t}\n\tf := h[os.Getenv(\"VERIF_HARNESS\")]\n\tif f == nil {\n\t\tt.Fatal(\"VERIF-REPLAY: unknown harness\")\n\t}\n\tdefer func() {\n\t\tif r := recover(); r != nil {\n\t\t\tif _, ok := r.(vfAssumeFailed); ok {\n\t\t\t\tt.Skip(\"VERIF-REPLAY: assumption failed (spurious)\")\n\t\t\t}\n\t\t\tpanic(r)\n\t\t}\n\t}()\n\tn := 0\n\tfor _, c := range os.Getenv(\"VERIF_REPEAT\") {\n\t\tn = n*10 + int(c-'0')\n\t}\n\tif n < 1 {\n\t\tn = 1\n\t}\n\tfor i := 0; i < n; i++ {\n\t\tvfReset()\n\t\tf()\n\t}\n}\n")
 		f := filepath.Join(dir, "ov", "test_"+strings.ReplaceAll(strings.TrimPrefix(d, repoDir), "/", "_")+"_test.go")
 		if err := os.WriteFile(f, []byte(sb.String()), 0o644); err != nil {
 			return "", err
@@ -86,6 +87,10 @@ func materialize(dir string) (string, error) {
 
 // runNative runs the harness natively with the nd assignment in ndPath.
 func runNative(rel, harness, ndPath, scratch string, timeout time.Duration) (reproduced bool, out string, err error) {
+	return runNativeN(rel, harness, ndPath, scratch, timeout, 1)
+}
+
+func runNativeN(rel, harness, ndPath, scratch string, timeout time.Duration, repeat int) (reproduced bool, out string, err error) {
 	ovPath, err := materialize(scratch)
 	if err != nil {
 		return false, "", err
@@ -100,7 +105,7 @@ func runNative(rel, harness, ndPath, scratch string, timeout time.Duration) (rep
 		"-overlay", ovPath, "-run", "^TestVerifReplay$", pkg)
 	cmd.Dir = repoDir
 	cmd.Env = append(os.Environ(), "GOFLAGS=-mod=mod", "GOPROXY=off", "GOSUMDB=off", "GOTOOLCHAIN=local",
-		"VERIF_REPLAY="+ndPath, "VERIF_HARNESS="+harness, "GOCACHE="+goCache())
+		"VERIF_REPLAY="+ndPath, "VERIF_HARNESS="+harness, "GOCACHE="+goCache(), fmt.Sprintf("VERIF_REPEAT=%d", repeat))
 	b, runErr := cmd.CombinedOutput()
 	out = string(b)
 	switch {
@@ -140,7 +145,16 @@ func replayViolation(rel string, v *gsx.Violation, scratch string, timeout time.
 	if err := writeReplayFile(nd, rf); err != nil {
 		return false, "", err
 	}
-	return runNative(rel, v.Harness, nd, scratch, timeout)
+	return runNativeN(rel, v.Harness, nd, scratch, timeout, repeatFor(v))
+}
+
+// repeatFor: a violation that needs context switches chosen by the explorer cannot be forced
+// on the native scheduler; the native replay runs the harness repeatedly instead.
+func repeatFor(v *gsx.Violation) int {
+	if v.Preempts > 0 {
+		return 600
+	}
+	return 1
 }
 
 func replayMain(path string) int {
@@ -156,7 +170,11 @@ func replayMain(path string) int {
 	}
 	scratch, _ := os.MkdirTemp("", "vcheck-replay-")
 	defer os.RemoveAll(scratch)
-	ok, out, err := runNative(relPkg(rf.Pkg), rf.Harness, path, scratch, 120*time.Second)
+	rep := rf.Repeat
+	if rep < 1 {
+		rep = 1
+	}
+	ok, out, err := runNativeN(relPkg(rf.Pkg), rf.Harness, path, scratch, 120*time.Second, rep)
 	fmt.Println(tail(out, 40))
 	if err != nil {
 		fmt.Fprintln(os.Stderr, err)
